@@ -9,6 +9,7 @@ call_soon; an exception escaping data_received force-closes and schedules connec
 eof_received() returning falsy closes; nothing is delivered once closing.
 """
 from __future__ import annotations
+import common
 
 import asyncio
 import socket
@@ -334,6 +335,8 @@ def established(keepalive=20.0, login=False, password=None, expected_name=None, 
     loop = net.loop
     net.auto_resolve = net.auto_sock = True
     client = APIClient("10.0.0.1", 6053, password, keepalive=keepalive, expected_name=expected_name, **client_kw)
+    if common.debug_flip():
+        client.set_debug(True)
     stops = stops if stops is not None else []
 
     async def on_stop(expected):
